@@ -101,3 +101,16 @@ Theorem C05_src_modes_and_result :
    ("_compute_soft_alignment_job"%string, "(dissimilarity, continuum) return continuum.get_best_soft_alignment(dissimilarity)"%string)] /\
   after_pool_src = ["return GammaResults(best_alignment=best_alignment, chance_alignments=chance_best_alignments, precision_level=precision_level, dissimilarity=dissimilarity)"%string].
 Proof. repeat split. Qed.
+
+(* both batches submit the SAME job on a fresh sample, every result is appended to the chance alignments, and the count of the second batch is
+   required_samples - n_samples (the pool section as text; the same obligation as C06_src_pool_section) *)
+Theorem C05_src_pool_section :
+  pool_src =
+  ["with ThreadPoolExecutor(max_workers=os.cpu_count()) as p"%string; "best_alignment_task = p.submit(job, *(dissimilarity, self))"%string;
+   "result_pool = [p.submit(job, *(dissimilarity, sampler.sample_from_continuum)) for _ in range(n_samples)]"%string;
+   "chance_best_alignments: List[Alignment] = []"%string;
+   "chance_disorders: List[float] = []"%string;
+   "best_alignment = best_alignment_task.result()"%string;
+   "for (i, result) in enumerate(result_pool): [chance_best_alignments.append(result.result()); chance_disorders.append(chance_best_alignments[-1].disorder)]"%string;
+   "if precision_level is not None: [if isinstance(precision_level, str): [precision_level = PRECISION_LEVEL[precision_level]]; assert 0 < precision_level < 1.0; variation_coeff = np.std(chance_disorders) / np.mean(chance_disorders); confidence = 1.96; required_samples = np.ceil((variation_coeff * confidence / precision_level) ** 2).astype(np.int32); if required_samples > n_samples: [result_pool = [p.submit(job, *(dissimilarity, sampler.sample_from_continuum)) for _ in range(required_samples - n_samples)]; for (i, result) in enumerate(result_pool): [chance_best_alignments.append(result.result())]]]"%string].
+Proof. reflexivity. Qed.
